@@ -204,7 +204,9 @@ func (s *S) Run(c *scen.Ctx) {
 	}
 	wg.Wait()
 	// idle for longer than the read time-out and the longest time-out in use
-	simrt.Sleep(s.readTO + ms(s.proxyTO) + ms(1700) + ms(500))
+	// (plus one dial time-out: a sender that found requests queued for a lost connection may
+	// still be dialling a black-holed address, holding the connection lock others wait for)
+	simrt.Sleep(s.readTO + ms(s.proxyTO) + ms(1700) + ms(500) + s.dialTO + ms(100))
 	s.mu.Lock()
 	s.after = s.state()
 	s.finished = true
